@@ -128,20 +128,6 @@ Record tq_inv (q : tqueue) : Prop := {
   ti_dom : forall id, rfind (tq_recs q) id <> None -> In id (elems (tq_heap q))
 }.
 
-Lemma heap_inv_ext (le1 le2 : N -> N -> Prop) h :
-  (forall a b, In a (elems h) -> In b (elems h) -> le1 a b -> le2 a b) ->
-  heap_inv le1 h -> heap_inv le2 h.
-Proof.
-  intros H [Hn HO]. split; auto. intros j Hj Hk. assert (par j < j) by (apply par_lt; lia).
-  apply H; try (apply el_In; lia). apply HO; auto.
-Qed.
-
-Lemma handles_NoDup pos h : handles pos h -> NoDup (elems h).
-Proof.
-  intros H. apply (NoDup_nth (elems h) 0%N). intros i j Hi Hj E.
-  eapply handles_inj; eauto.
-Qed.
-
 Lemma live_rec q id : tq_inv q -> In id (elems (tq_heap q)) ->
   exists r, rfind (tq_recs q) id = Some r /\ r_rc r < length (elems (tq_heap q)) /\
             el (elems (tq_heap q)) (r_rc r) = id.
@@ -238,7 +224,7 @@ Section TQ.
     assert (r' = r) by congruence. subst r'.
     destruct (ti_heap q I) as [Hn HO].
     destruct (delete_spec (reccmp (tq_recs q)) (rle (tq_recs q)) (rle_ok _) true (tq_heap q) (r_rc r) o
-                (ti_heap q I) Hs ltac:(lia)) as (h' & ns & o' & ev & E & HI' & HP & HH).
+                (ti_heap q I) Hs ltac:(lia)) as (h' & ns & o' & ev & E & HI' & HP & HH & _).
     rewrite Eid in HP. exists h', ns, o', ev. split; [exact E|]. cbv zeta. cbn [tq_heap tq_recs].
     assert (ND : NoDup (id :: elems h')).
     { eapply Permutation_NoDup; [apply Permutation_sym; exact HP|]. eapply handles_NoDup. apply (ti_rc q I). }
